@@ -1,10 +1,10 @@
 (* C07 — destroyed or invalidated sessions never come back.
-   Statements only; proofs are in Proofs/HistInv.v, HistInv2.v, HistInv3.v and
-   Proofs/IsoLaws.v. All statements are about fault-free execution (no planned
+   Statements only; proofs are in Proofs/HistInv.v, HistInv2.v, HistInv3.v,
+   Proofs/IsoLaws.v and Proofs/DeadLaws.v. All statements are about fault-free execution (no planned
    persistence failure); crashes, cache loss and restarts are allowed where a
    history is quantified. *)
 From Sessions Require Import Model.Base Model.Sess Model.Hist Proofs.SessDefs
-  Proofs.HistInv Proofs.HistInv2 Proofs.HistInv3 Proofs.IsoLaws.
+  Proofs.HistInv Proofs.HistInv2 Proofs.HistInv3 Proofs.IsoLaws Proofs.DeadLaws.
 
 (* Destroy removes the ID from cache and store together, sends the expiring
    cookie, issues one DeleteSession and touches no other ID. *)
@@ -60,9 +60,46 @@ Theorem C07_stays_dead :
   Forall (dead_obs k) (run_from (reach c hs1) hs2).
 Proof. exact stays_dead_reach. Qed.
 
+(* A request whose handler script ends with Destroy (the last operation it
+   executed; the model stops the script there: no further calls on the destroyed
+   object): the handler's session ID k is dead from then on, the response carries
+   the expiring cookie, a cookie-following client is left without cookie, and in
+   every fault-free continuation (crashes, cache loss, restarts included) k is
+   never cached, stored, saved under, returned by Start, or sent as live cookie. *)
+Theorem C07_destroyed_never_returns :
+  forall c hs1 r hs2,
+  Forall ff_hop hs1 -> rq_plan r = [] -> rq_crash r = None -> Forall ff_hop hs2 ->
+  ob_script (snd (step (reach c hs1) (HReq r))) <> [] ->
+  nth_error (rq_script r) (length (ob_script (snd (step (reach c hs1) (HReq r)))) - 1) = Some SDestroy ->
+  exists k rc, ob_final (snd (step (reach c hs1) (HReq r))) = Some (k, rc) /\
+    In CkDelete (ob_cookies (snd (step (reach c hs1) (HReq r)))) /\
+    (rq_present r = PJar -> ob_jar (snd (step (reach c hs1) (HReq r))) = CNone) /\
+    absent (w_st (after (fst (step (reach c hs1) (HReq r))) hs2)) k /\
+    Forall (dead_obs k) (run_from (fst (step (reach c hs1) (HReq r))) hs2).
+Proof. exact destroyed_never_returns. Qed.
+
+(* A request presenting an ID k whose record fails Start's validity check (idle
+   for SessionExpiry or longer, or a peer/agent anomaly): the response begins with
+   the expiring cookie and carries no live cookie for k, Start does not return k,
+   the client does not keep k, and k is dead in every fault-free continuation. *)
+Theorem C07_invalidated_never_returns :
+  forall c hs1 r hs2 k r0,
+  Forall ff_hop hs1 -> rq_plan r = [] -> rq_crash r = None -> Forall ff_hop hs2 ->
+  presented (reach c hs1) r = CKey k -> L (w_st (reach c hs1)) k = Some r0 ->
+  rec_valid (conf (w_st (reach c hs1))) (now (w_st (reach c hs1)))
+            (mkReq (presented (reach c hs1) r) (rq_create r) (rq_addr r) (rq_ua r)) r0 = false ->
+  (exists rest, ob_cookies (snd (step (reach c hs1) (HReq r))) = CkDelete :: rest /\ ~ In (CkLive k) rest) /\
+  (forall rc, ob_start (snd (step (reach c hs1) (HReq r))) <> Some (k, rc)) /\
+  (rq_present r = PJar -> ob_jar (snd (step (reach c hs1) (HReq r))) <> CKey k) /\
+  absent (w_st (after (fst (step (reach c hs1) (HReq r))) hs2)) k /\
+  Forall (dead_obs k) (run_from (fst (step (reach c hs1) (HReq r))) hs2).
+Proof. exact invalidated_never_returns. Qed.
+
 Print Assumptions C07_destroy.
 Print Assumptions C07_inv_step.
 Print Assumptions C07_inv_hist.
 Print Assumptions C07_fresh_heap_clause_crash_refuted.
 Print Assumptions C07_not_reissued.
 Print Assumptions C07_stays_dead.
+Print Assumptions C07_destroyed_never_returns.
+Print Assumptions C07_invalidated_never_returns.
